@@ -259,6 +259,24 @@ func TestVerifBoundedC13(t *testing.T) {
 			})
 		}
 	}
+	// typed-nil pointers whose type has a String method, where a rule renders the value
+	type strs struct {
+		L []*time.Time `valid:"unique"`
+		N []*time.Time `valid:"ints"`
+		I interface{}  `valid:"eq=3,in=(a/b),int,float,noeq=1"`
+		J interface{}  `valid:"required,to=1~3"`
+	}
+	try("Struct(nil Stringer elements)", func() {
+		Struct(&strs{L: []*time.Time{nil, nil}, N: []*time.Time{nil}, I: (*time.Time)(nil), J: (*time.Time)(nil)})
+	})
+	for _, rule := range c13Rules {
+		rule := rule
+		try(fmt.Sprintf("Var(nil Stringer, %q)", rule), func() {
+			Var([]*time.Time{nil, nil}, rule)
+			Var([]interface{}{(*time.Time)(nil), "a"}, rule)
+			Map(map[string]interface{}{"a": (*time.Time)(nil)}, NewRule().Set("a", rule))
+		})
+	}
 	for _, u := range []string{"", "?", "h?a", "h?a=1&b", "h?=&=&", "h?a=%zz", "%zz", "h?a=1=2=3&&&", "h?a=中&b=\x00", "h?" + strings.Repeat("a=1&", 50)} {
 		for _, rule := range c13Rules {
 			u, rule := u, rule
